@@ -41,43 +41,102 @@ Qed.
 
 (* one script per shape of parse_field arm; tried in turn so that the proof
    survives new field kinds of a known shape in C05's schema language *)
-Ltac field_step Hl :=
+(* a decoder of embedded names that never panics when its limit lies within
+   the octets *)
+Definition dec_total (dec : decoder) : Prop :=
+  forall m pos lim, lim <= mlen m -> sat (dec m pos lim) (fun _ => True).
+
+Lemma pname_dec_total : dec_total pname_dec.
+Proof. intros m pos lim Hl. apply decode_name_sat. exact Hl. Qed.
+
+Lemma pname_nc_dec_total strict : dec_total (pname_nc_dec strict).
+Proof.
+  intros m pos lim Hl. unfold pname_nc_dec.
+  eapply sat_bind; [apply parse_ref_sat; exact Hl|]. intros p [ls Hp].
+  destruct (pn_compressed p); [exact I|].
+  destruct (strict && negb (pn_end p - pos =? pn_len p)); [exact I|]. rewrite Hp. cbn. exact I.
+Qed.
+
+Lemma flat_dec_total : dec_total flat_dec.
+Proof.
+  intros m pos lim _. unfold flat_dec.
+  destruct (Names.decode_abs (slice m pos lim)) as [[[n rest]|]|[| |]]; exact I.
+Qed.
+
+Ltac field_step Hl Hdec dec :=
   lazymatch goal with
   | |- sat (Ok _) _ => exact I
   | |- sat (Err _) _ => exact I
   | |- sat (bind (rd _ _ _ _) _) _ => eapply sat_bind; [apply rd_sat|]; intros ? _
   | |- sat (bind (rd8 _ _ _) _) _ => eapply sat_bind; [apply rd8_sat; exact Hl|]; intros ? _
-  | |- sat (bind (pname_dec _ _ _) _) _ => eapply sat_bind; [apply decode_name_sat; exact Hl|]; intros ? _
+  | |- sat (bind (dec _ _ _) _) _ => eapply sat_bind; [apply Hdec; exact Hl|]; intros ? _
   | |- sat (bind (parse_strs _ _ _ _ _) _) _ => eapply sat_bind; [apply parse_strs_sat; [exact Hl|lia]|]; intros ? _
   | |- sat (if ?c then _ else _) _ => destruct c
   | |- sat (match ?x with _ => _ end) _ => destruct x
   end.
 
-Lemma parse_field_sat f m pos lim : lim <= mlen m ->
-  sat (parse_field pname_dec f m pos lim) (fun _ => True).
-Proof. intros Hl. destruct f; cbn [parse_field]; repeat (field_step Hl). Qed.
+Lemma parse_field_sat dec f m pos lim : dec_total dec -> lim <= mlen m ->
+  sat (parse_field dec f m pos lim) (fun _ => True).
+Proof. intros Hdec Hl. destruct f; cbn [parse_field]; repeat (field_step Hl Hdec dec). Qed.
 
-Lemma parse_fields_sat : forall s m pos lim, lim <= mlen m ->
-  sat (parse_fields pname_dec s m pos lim) (fun _ => True).
+Lemma parse_fields_sat dec : dec_total dec -> forall s m pos lim, lim <= mlen m ->
+  sat (parse_fields dec s m pos lim) (fun _ => True).
 Proof.
-  induction s as [|f s IH]; intros m pos lim Hl; cbn [parse_fields]; [exact I|].
-  eapply sat_bind; [apply parse_field_sat; exact Hl|]. intros r _.
+  intros Hdec. induction s as [|f s IH]; intros m pos lim Hl; cbn [parse_fields]; [exact I|].
+  eapply sat_bind; [apply parse_field_sat; assumption|]. intros r _.
   eapply sat_bind; [apply IH; exact Hl|]. intros r' _. exact I.
 Qed.
 
-(* RecordHeader::parse_into_any_record + <type>::parse for EVERY schema: reading
-   typed record data out of the RDLENGTH sub-parser never panics *)
-Theorem parse_rdata_total s m pos lim : lim <= mlen m ->
-  no_panic (parse_rdata pname_dec s m pos lim).
+(* RecordHeader::parse_into_any_record + <type>::parse for EVERY schema and
+   every total name decoder: reading typed data out of a length-limited
+   sub-parser never panics *)
+Theorem parse_rdata_total_gen dec s m pos lim : dec_total dec -> lim <= mlen m ->
+  no_panic (parse_rdata dec s m pos lim).
 Proof.
-  intros Hl. apply (sat_no_panic _ (fun _ => True)). unfold parse_rdata, parse_type.
+  intros Hdec Hl. apply (sat_no_panic _ (fun _ => True)). unfold parse_rdata, parse_type.
   eapply sat_bind.
   - instantiate (1 := fun _ => True). destruct (s_long s) as [k|].
     + destruct (lim - pos <? k); [exact I|]. destruct (65535 <? lim - pos - k); [exact I|].
-      apply parse_fields_sat. exact Hl.
-    + apply parse_fields_sat. exact Hl.
+      apply parse_fields_sat; assumption.
+    + apply parse_fields_sat; assumption.
   - intros r _. destruct (snd r =? lim); [|exact I].
     destruct (post_check (s_post s) (fst r)); exact I.
+Qed.
+
+Theorem parse_rdata_total s m pos lim : lim <= mlen m ->
+  no_panic (parse_rdata pname_dec s m pos lim).
+Proof. apply parse_rdata_total_gen. exact pname_dec_total. Qed.
+
+Lemma classify_sat {A} (x : outcome A) : no_panic x -> sat (classify x) (fun _ => True).
+Proof. destruct x; cbn; auto. Qed.
+
+(* IPSECKEY: the row is picked by the gateway type octet *)
+Theorem ipseckey_parse_total m pos lim : lim <= mlen m -> no_panic (ipseckey_parse m pos lim).
+Proof.
+  intros Hl. unfold ipseckey_parse.
+  destruct (N.ltb_spec (lim - pos) 3); [exact I|].
+  destruct (get_some m (pos + 1)) as [g Hg]; [lia|]. rewrite Hg.
+  destruct (3 <? g); [exact I|].
+  apply parse_rdata_total_gen; [apply pname_nc_dec_total|exact Hl].
+Qed.
+
+(* every EDNS option of C05's option table (and unknown codes): parsing its
+   contents never panics *)
+Theorem option_data_total code d : no_panic (parse_rdata flat_dec (option_schema code) d 0 (len d)).
+Proof. apply parse_rdata_total_gen; [exact flat_dec_total|unfold len, mlen; lia]. Qed.
+
+Lemma options_typed_sat : forall l, sat (options_typed l) (fun _ => True).
+Proof.
+  induction l as [|[code d] t IH]; cbn [options_typed]; [exact I|].
+  eapply sat_bind; [apply classify_sat; apply option_data_total|]. intros c _.
+  destruct c; [|exact I]. eapply sat_bind; [exact IH|]. intros rest _. exact I.
+Qed.
+
+Lemma msg_opt_typed_sat m : has_header m -> sat (msg_opt_typed m) (fun _ => True).
+Proof.
+  intros Hh. unfold msg_opt_typed. eapply sat_bind; [apply msg_opt_sat; exact Hh|]. intros o _.
+  destruct o as [[r os]|]; [|exact I].
+  eapply sat_bind; [apply options_typed_sat|]. intros l _. exact I.
 Qed.
 
 Example parse_rdata_example :
@@ -89,10 +148,15 @@ Proof. vm_compute. reflexivity. Qed.
 
 Lemma typed_rdata_sat m r : good_rr m (mlen m) r -> sat (typed_rdata m r) (fun _ => True).
 Proof.
-  intros [_ [Hd _]]. unfold typed_rdata. destruct (schema_of (rr_type r)) as [s|]; [|exact I].
-  destruct (mlen m - rr_data r <? rr_rdlen r); [exact I|].
-  pose proof (parse_rdata_total s m (rr_data r) (rr_data r + rr_rdlen r) Hd) as Ht.
-  destruct (parse_rdata pname_dec s m (rr_data r) (rr_data r + rr_rdlen r)); cbn in *; auto.
+  intros [_ [Hd _]]. unfold typed_rdata.
+  destruct (mlen m - rr_data r <? rr_rdlen r); [exact I|]. cbv zeta.
+  destruct (rr_type r =? RT_IPSECKEY).
+  { eapply sat_bind; [apply classify_sat; apply ipseckey_parse_total; exact Hd|]. intros c _. exact I. }
+  destruct (rr_type r =? RT_OPT).
+  { eapply sat_bind; [apply classify_sat; eapply sat_no_panic; apply opt_check_sat; [exact Hd|lia]|].
+    intros c _. exact I. }
+  destruct (schema_of (rr_type r)) as [s|]; [|exact I].
+  eapply sat_bind; [apply classify_sat; apply parse_rdata_total; exact Hd|]. intros c _. exact I.
 Qed.
 
 Lemma typed_all_sat m : forall l,
@@ -160,12 +224,15 @@ Proof.
   destruct ((q_type q =? RT_AXFR) || (q_type q =? RT_IXFR)); [|exact I].
   eapply sat_bind; [apply r_next_sat|]. intros [o s'] [_ Ho]. cbn [fst] in Ho.
   destruct o as [[rec|e]|]; try exact I.
-  destruct (zone_schema_of (rr_type rec)) as [s|]; [|exact I].
   destruct (mlen m - rr_data rec <? rr_rdlen rec); [exact I|].
   destruct Ho as [_ [Hd _]].
-  pose proof (parse_rdata_total s m (rr_data rec) (rr_data rec + rr_rdlen rec) Hd) as Ht.
-  destruct (parse_rdata pname_dec s m (rr_data rec) (rr_data rec + rr_rdlen rec)); cbn in *; auto.
-  destruct (rr_type rec =? RT_SOA); exact I.
+  eapply sat_bind.
+  { instantiate (1 := fun _ => True). destruct (rr_type rec =? RT_IPSECKEY).
+    - apply classify_sat. apply ipseckey_parse_total. exact Hd.
+    - destruct (zone_schema_of (rr_type rec)) as [s|]; [|exact I].
+      apply classify_sat. apply parse_rdata_total. exact Hd. }
+  intros c _. destruct c as [u|e]; [destruct (rr_type rec =? RT_SOA); exact I|].
+  destruct (e =? 99); exact I.
 Qed.
 
 (* a reply to an A question that carries a SOA is refused, not unreachable!() *)
@@ -221,6 +288,7 @@ Proof.
     eapply sat_bind; [apply count_at_sat; exact Har|]. intros ar _. exact I.
   - destruct (iter_slice_finite m start) as [ls E]. rewrite E. exact I.
   - eapply sat_bind; [apply message_typed_sat; exact Hh|]. intros l _. exact I.
+  - eapply sat_bind; [apply msg_opt_typed_sat; exact Hh|]. intros l _. exact I.
 Qed.
 
 Lemma run_ops_sat m : forall ops st, has_header m -> sat (run_ops m st ops) (fun _ => True).
@@ -265,6 +333,7 @@ Proof.
   - apply ofst_bind. intros [p|]; [apply ofst_bind; intros v; reflexivity|reflexivity].
   - destruct (msg_sections m) as [[[[q a] n] r]| | |]; reflexivity.
   - repeat (apply ofst_bind; intros ?). reflexivity.
+  - apply ofst_bind. intros l. reflexivity.
   - apply ofst_bind. intros l. reflexivity.
   - apply ofst_bind. intros l. reflexivity.
 Qed.
